@@ -769,6 +769,10 @@ func checkEmptyEntityAndUseBeforeValidate(c *Ctx) {
 			}
 		}
 		c.Check(ok, "R7.9", "entity/dag.read:refuses-empty-entity", w.FnPos(fn), "fails iff the operation list is empty, before the success return", "an entity without operations is read successfully: its Id() dereferences a nil first operation (crash in the cache build / ReadAll)")
+		if ok {
+			// every entity handed out by read has a first operation: the order of Id() and Validate() in merge cannot crash
+			return
+		}
 	}
 	mf := w.Func("entity/dag", "merge")
 	if mf == nil {
